@@ -394,6 +394,12 @@ func (g *progGen) node(depth int) string {
 		if !g.o.stateful || excluded("tag:ifchanged") {
 			return g.text()
 		}
+		if g.chance(4, "nestedifchanged") {
+			// two argument-less ifchanged tags, one inside the other, each in a loop of its own (lists
+			// with repeated elements): each compares with what IT rendered last time
+			return "{% for oa in " + pick(g.t, "icl1", []string{"items", "nums", "words"}) + " %}{% ifchanged %}<{{ oa }}{% for ob in " + pick(g.t, "icl2", []string{"items", "nums", "words"}) +
+				" %}{% ifchanged %}{{ ob }}{% endifchanged %}{% endfor %}>{% endifchanged %}{% endfor %}"
+		}
 		s := "{% ifchanged"
 		if g.chance(2, "watch") {
 			s += " " + g.atom()
